@@ -5,9 +5,10 @@
    quantifies over them (F, s2d = strTo<double>, l2d = (double)long, d2s = toStr<double>,
    leval = luaEval of an INTERPRETED atom, lexec = the chunk "<location>= __tmpAssign",
    Fst = which doubles are classified stable) and assumes [oracle_ok] resp. the named lua_* premise.
-   [lm_variant] carries the four points at which the pinned code deviates; [variant_ok vr v] is true
+   [lm_variant] carries the five points at which the pinned code deviates; [variant_ok vr v] is true
    for every value when all switches are off (the repaired code) and spells out the restriction
-   otherwise (no empty string, arrays shorter than 10, integers within +-2^53, no empty map key). *)
+   otherwise (no empty string, arrays shorter than 10, integers within +-2^53, no empty map key,
+   no map key made of the characters ".-0123456789" only). *)
 From V Require Import Base GenLuaProtected LuaMarshal LuaMarshalLemmas.
 
 (* U (all values, induction on the value type): a value of the property's class, presented as Data
@@ -61,6 +62,15 @@ Theorem marshal_roundtrip_big_integer_refuted :
               get_lua_as_data F l2d d2s vr l <> embed F d2s v.
 Proof. exact big_integer_refuted_lemma. Qed.
 Print Assumptions marshal_roundtrip_big_integer_refuted.
+
+(* "1-2" is not a number, so {"1-2" = ...} is a map with a non-numeric key; isInteger as pinned accepts
+   the '-' at any position and the key becomes the integer 1 *)
+Theorem marshal_roundtrip_sign_position_refuted :
+  forall F s2d l2d d2s leval Fst vr g, lm_sign_anywhere vr = true ->
+  exists v l, unambiguous F Fst v = true /\ get_data_as_lua F s2d leval vr g (embed F d2s v) = MOk l /\
+              get_lua_as_data F l2d d2s vr l <> embed F d2s v.
+Proof. exact sign_position_refuted_lemma. Qed.
+Print Assumptions marshal_roundtrip_sign_position_refuted.
 
 Theorem marshal_roundtrip_empty_key_refuted :
   forall F s2d d2s leval Fst vr g, lm_empty_key_undefined vr = true ->
@@ -207,7 +217,7 @@ Print Assumptions init_then_read.
 Theorem literal_denotes_sufficient :
   forall F s2d l2d d2s leval Fst, oracle_ok F s2d l2d d2s leval Fst ->
   (forall vr g lit_text v, unambiguous F Fst v = true -> variant_ok F vr v = true ->
-     lit_text <> [] -> is_numeric lit_text = false -> leval g lit_text = Some [lua_of_value F v] ->
+     lit_text <> [] -> is_numeric (lm_sign_anywhere vr) lit_text = false -> leval g lit_text = Some [lua_of_value F v] ->
      literal_denotes F s2d l2d d2s leval vr g lit_text v) /\
   (forall vr g z, unambiguous F Fst (VNum F (NInt F z)) = true -> variant_ok F vr (VNum F (NInt F z)) = true ->
      literal_denotes F s2d l2d d2s leval vr g (dec_of_Z z) (VNum F (NInt F z))).
